@@ -15,6 +15,7 @@ import (
 
 // frame is one activation (the function under verification or an inlined callee).
 type frame struct {
+	noSplit bool // do not execute latch blocks path by path
 	fn      *ssa.Function
 	vals    map[ssa.Value]val
 	prefix  string // obligation-name prefix for inlined callees
@@ -243,6 +244,40 @@ func (c *fctx) runBody(fr *frame, entryCond string, st *state) []retInfo {
 		if len(ins) == 0 {
 			continue // unreachable (e.g. recover block)
 		}
+		// a latch block (its only successor is the header it jumps back to) reached along several paths is executed once
+		// per path instead of once on the merged state: the invariants are then checked path by path, on states without
+		// the if-then-else merges of heaps and slices that make a single merged obligation expensive
+		if len(ins) > 1 && fr.loops[b] == nil && len(b.Succs) == 1 && isBack(b, b.Succs[0]) && !fr.noSplit {
+			for i, e := range ins {
+				incoming[b] = []edge{e}
+				if fr.top {
+					c.curTag = pathTag{blk: b, copy: i + 1}
+				}
+				c.runBlock(fr, b, incoming, &rets)
+			}
+			continue
+		}
+		if fr.top {
+			c.curTag = pathTag{blk: b}
+		}
+		c.runBlock(fr, b, incoming, &rets)
+		if len(c.errs) > 40 {
+			return rets
+		}
+	}
+	if fr.top {
+		c.curTag = pathTag{}
+	}
+	return rets
+}
+
+// runBlock executes one basic block on the merge of its incoming edges.
+func (c *fctx) runBlock(fr *frame, b *ssa.BasicBlock, incoming map[*ssa.BasicBlock][]edge, retsp *[]retInfo) {
+	fn := fr.fn
+	rets := *retsp
+	defer func() { *retsp = rets }()
+	{
+		ins := incoming[b]
 		conds := make([]string, len(ins))
 		sts := make([]*state, len(ins))
 		for i, e := range ins {
@@ -379,12 +414,11 @@ func (c *fctx) runBody(fr *frame, entryCond string, st *state) []retInfo {
 				c.instr(fr, in, reach, cur)
 			}
 			if len(c.errs) > 40 {
-				return rets
+				return
 			}
 		}
 		_ = term
 	}
-	return rets
 }
 
 func predIndex(b, from *ssa.BasicBlock) int {
